@@ -135,7 +135,7 @@ pub fn check_loop(case: &LoopCase, out: &LoopOutcome) -> Vec<Finding> {
     }
 
     // ---- per-thread sample structure (C01 counts, C02 timed-section purity)
-    let counters = (case.input_counters & 1 != 0) as usize + (case.input_counters & 2 != 0) as usize;
+    let counters = (case.input_counters & 15).count_ones() as usize;
     for tr in &traces {
         for (k, sec) in tr.sections.iter().enumerate() {
             let calls = sec.calls();
@@ -188,8 +188,8 @@ pub fn check_loop(case: &LoopCase, out: &LoopOutcome) -> Vec<Finding> {
                         *seen.entry(*c).or_default() += 1;
                     }
                     for id in &gens {
-                        for kind in [0u64, 3] {
-                            let registered = (kind == 0 && case.input_counters & 1 != 0) || (kind == 3 && case.input_counters & 2 != 0);
+                        for kind in [0u64, 1, 2, 3] {
+                            let registered = input_counter_registered(case.input_counters, kind);
                             let n = seen.get(&(*id, kind)).copied().unwrap_or(0);
                             if n != registered as u32 {
                                 finding(&mut f, "C01", "count-per-input", format!("{}: thread {} sample {k}: input {id} shown {n} times to counter kind {kind}", case.describe(), tr.thread));
